@@ -592,23 +592,24 @@ func procC19(t *Target, tier string, r *Result) {
 			}
 			sh, detail := firstDiff(t.Spec, reflect.ValueOf(s).Elem(), reflect.ValueOf(fresh).Elem(), excl)
 			if !scalarLike(sh) {
-				r.outcome(tag + "/structural-loss")
+				r.outcome(tag + "/structural-loss:" + sh)
 				return // not a scalar conversion: C04's claim
 			}
 			r.outcome(tag + "/inexact")
 			r.violate("inexact", sh, "scalar value does not survive conversion: "+detail, w)
 		})
 	}
-	run(sOpts{Wide: true, Bases: []int{BaseMin, BaseFull}}, "boundary")
+	run(sOpts{Wide: true, Bases: []int{BaseZero, BaseMin, BaseFull}}, "boundary")
 	seed := int64(Seed)
 	run(sOpts{Wide: true, Bases: []int{BaseMin}, K: 1, RandN: 4, Seed: seed + 1}, "random")
 }
 
 // scalarLike tells whether the innermost attribute of a shape chain is a scalar-like leaf or a collection of them.
 func scalarLike(chainStr string) bool {
-	last := chainStr
-	if i := strings.LastIndex(chainStr, ">"); i >= 0 {
-		last = chainStr[i+1:]
+	// the chain separator is ">", and collection descriptors end in ">" themselves (map<string>)
+	last := strings.TrimSuffix(chainStr, ">")
+	if i := strings.LastIndex(last, ">"); i >= 0 {
+		last = last[i+1:]
 	}
 	return strings.HasPrefix(last, "prim:") || strings.HasPrefix(last, "list<") || strings.HasPrefix(last, "map<")
 }
